@@ -86,8 +86,15 @@ def run_case(draw, modes=("mellinger", "loglinear")):
         psi_sp = 0.0 if hm == 0 else (draw(gens.fl(-0.3, 0.3)) if hm == 1 else draw(gens.fl(-PI, PI)))
     else:
         psi_sp = 0.0 if hm == 0 else draw(gens.fl(-PI, PI))
-    return {"mode": mode, "p0": [draw(gens.fl(-3.0, 3.0)) for _ in range(3)], "axis": draw(gens.axis()), "tilt": tilt,
-            "qsign": int(draw(st.sampled_from([1, -1]))), "v0": [draw(gens.fl(-1.5, 1.5)) for _ in range(3)],
+    p0 = [draw(gens.fl(-3.0, 3.0)) for _ in range(3)]
+    v0 = [draw(gens.fl(-1.5, 1.5)) for _ in range(3)]
+    if draw(st.integers(0, 3)) == 0:
+        # corner of the envelope: large tilt while sinking, below the set-point (the descent must be arrested first)
+        tilt = draw(st.sampled_from([PI / 3, PI / 3.5, PI / 4]))
+        v0 = [draw(st.sampled_from([-1.5, 0.0, 1.5])), draw(st.sampled_from([-1.5, 0.0, 1.5])), -1.5]
+        p0[2] = draw(st.sampled_from([-3.0, -2.0, 0.0]))
+    return {"mode": mode, "p0": p0, "axis": draw(gens.axis()), "tilt": tilt,
+            "qsign": int(draw(st.sampled_from([1, -1]))), "v0": v0,
             "w0": [draw(gens.fl(-1.5, 1.5)) for _ in range(3)], "psi_sp": psi_sp, "yaw0_at_sp": draw(st.booleans()),
             "alt": draw(gens.fl(8.0, 30.0)), "tf": float(draw(st.integers(25 if mode == "loglinear" else 20, 30)))}
 
@@ -174,9 +181,9 @@ def known_loglinear_heading(cellname, case, v):
 
 def build(tier):
     cells = [
-        Cell("closed_loop/mellinger", run_case(modes=("mellinger",)), check_run, nontrivial, classify, quick=64, thorough=1600, shrink=False,
+        Cell("closed_loop/mellinger", run_case(modes=("mellinger",)), check_run, nontrivial, classify, quick=200, thorough=1600, shrink=False,
              shards_quick=8, shards_thorough=16, weight=1000.0, build=lambda: step_fn("mellinger")),
-        Cell("closed_loop/loglinear", run_case(modes=("loglinear",)), check_run, nontrivial, classify, quick=64, thorough=1600, shrink=False,
+        Cell("closed_loop/loglinear", run_case(modes=("loglinear",)), check_run, nontrivial, classify, quick=200, thorough=1600, shrink=False,
              shards_quick=8, shards_thorough=16, weight=1000.0, build=lambda: step_fn("loglinear")),
     ]
     return {
